@@ -63,6 +63,15 @@ Theorem C05_every_outcome_unbiased_refuted :
   c_fix c = false /\ ord_ok ord /\ In o (run_all c ord (sel_random selu) rf budget rows dr) /\ ~ unbiased selu o.
 Proof. exact kept_factor_refuted. Qed.
 
+(* a second way into the same defect (finding F-C05b), with no fixed budget exceeded: a metric within its own fixed budget
+   that is sorted after any sibling over its share goes through sampler.sample with sf = size/fixedBudget < 1 *)
+Theorem C05_every_outcome_unbiased_refuted_fixed_within_budget :
+  exists c ord rf selu budget rows dr o,
+  c_fix c = false /\ ord_ok ord /\
+  Forall (fun r => r_budget r = 0 \/ sum_size (filter (fun r' => r_metric r' =? r_metric r) rows) <= r_budget r) rows /\
+  In o (run_all c ord (sel_random selu) rf budget rows dr) /\ ~ unbiased selu o.
+Proof. exact kept_factor_refuted_fixed_within_budget. Qed.
+
 (* ... and holds for all options, budgets, weights, rounders and orders once sampler.sample keeps a group that fits its
    budget with factor 1 (repaired variant of the dual model) *)
 Theorem C05_every_outcome_unbiased_repaired :
